@@ -4625,11 +4625,14 @@ struct LoadOptionsRef<'a> {
 
 #[derive(Debug, Default)]
 struct PendingState<'a> {
-  deferred: HashMap<ModuleSpecifier, DeferredLoad>,
+  // insertion ordered so that the order in which these are drained (and with
+  // it first-writer-wins outcomes such as error referrers and jsr version
+  // unification) does not depend on the hasher
+  deferred: IndexMap<ModuleSpecifier, DeferredLoad>,
   pending: FuturesOrdered<PendingInfoFuture<'a>>,
   jsr: PendingJsrState,
   npm: PendingNpmState,
-  dynamic_branches: HashMap<ModuleSpecifier, PendingDynamicBranch>,
+  dynamic_branches: IndexMap<ModuleSpecifier, PendingDynamicBranch>,
 }
 
 #[derive(Debug, Clone, Copy, PartialEq, Eq)]
